@@ -42,6 +42,9 @@ func (s *genState) genGraph(depth int) int {
 	n := r.Range(1, 4)
 	if depth == 0 {
 		n = r.Range(2, 5)
+		if r.Chance(1, 8) {
+			n = 1
+		}
 	}
 	keys := r.Perm(6)[:n]
 	nodes := make([]Node, n)
@@ -52,7 +55,10 @@ func (s *genState) genGraph(depth int) int {
 		nodes[i] = nd
 	}
 	g := Graph{Nodes: nodes, Dag: r.Chance(1, 3)}
-	if !g.Dag && n >= 2 && r.Chance(1, 5) {
+	if r.Chance(1, 4) {
+		g.Wf, g.Dag = true, true // a compose.Workflow: all predecessors, eager
+	}
+	if n >= 2 && r.Chance(1, 5) {
 		// some nodes sit behind a multi-branch from START (a branch needs two targets); at
 		// least one of them is selected
 		nb := r.Range(2, n)
@@ -62,9 +68,21 @@ func (s *genState) genGraph(depth int) int {
 			g.Nodes[i].Br = true
 			g.Nodes[i].Runs = j == keep || r.Chance(1, 2)
 		}
+		if g.Wf && nb == n {
+			// a workflow whose only way out of START is a branch does not compile ("start node
+			// not set": Workflow.compile adds the branch without registering its targets as
+			// start nodes); keep one plain successor of START
+			g.Nodes[idx[keep]].Br = false
+			if nb == 2 {
+				g.Nodes[idx[1-keep]].Br, g.Nodes[idx[1-keep]].Runs = false, true // a branch needs two targets
+			}
+		}
 	}
 	if s.resume {
 		s.genChains(&g, gi, depth, n)
+	}
+	if !g.Wf && !g.Dag && chainOrder(g) != nil && r.Chance(1, 2) {
+		g.Chain = true // one chain START -> ... -> END: build it with compose.NewChain
 	}
 	s.c.Forest[gi] = g
 	return gi
@@ -242,6 +260,7 @@ func (s *genState) genCall(ci int) Call {
 	r := s.r
 	var cl Call
 	cl.Stream = r.Chance(1, 3)
+	cl.InStr = r.Chance(1, 4)
 	base := (ci + 1) * 1000
 	next := 0
 	wantOf := func(j int) int { // the option type of env[j]'s items (-1: none)
@@ -395,6 +414,9 @@ func (s *genState) genSession() *Case {
 	stream := r.Chance(1, 3)
 	hasRerun := false
 	for _, g := range c.Forest {
+		// (a workflow node interrupted through Stream: its pending input is the stream before
+		// the field mapping, which convertCheckPoint cannot turn into the node's input type)
+		hasRerun = hasRerun || g.Wf
 		for _, nd := range g.Nodes {
 			hasRerun = hasRerun || nd.Rerun
 		}
@@ -407,7 +429,7 @@ func (s *genState) genSession() *Case {
 		if hasRerun {
 			// a node that is re-run through Stream is handed an empty stream, which an invokable
 			// lambda cannot concatenate
-			cl.Stream = false
+			cl.Stream, cl.InStr = false, false
 		}
 		// no WithLambdaOption(a, b) of two types: it fails inside the node, in the middle of the run
 		for j := range cl.Script {
